@@ -214,7 +214,11 @@ func (e *Engine) cmdFuncs(names []string) int {
 			continue
 		}
 		bad++
-		fmt.Printf("%-8s %-60s %s %.2fs  | %s\n", ob.Status, ob.Name, ob.Solver, ob.Time, ob.Src)
+		at := ""
+		if ob.Pos.IsValid() {
+			at = fmt.Sprintf(" @%d", e.fset.Position(ob.Pos).Line)
+		}
+		fmt.Printf("%-8s %-60s %s %.2fs  | %s%s\n", ob.Status, ob.Name, ob.Solver, ob.Time, ob.Src, at)
 		if ob.Model != "" && e.verbose {
 			fmt.Println(indent(ob.Model))
 		}
